@@ -506,7 +506,7 @@ func (c *Ctx) snapshotNoEscape() {
 			default:
 				return
 			}
-			if !fr.IsFresh(dst, 0) {
+			if !fr.fresh(rootOf(dst), false, 0) {
 				return
 			}
 			if _, isPtr := val.Type().Underlying().(*types.Pointer); !isPtr {
